@@ -183,9 +183,10 @@ class ListField(Field):
 
     def __setdefault__(self, cfg: Config) -> None:
         default = self.default
-        if isinstance(default, list):
+        if isinstance(default, (list, tuple)):
             # every configuration gets its own copy of the default, nested containers included
             default = copy.deepcopy(default)
+        if isinstance(default, list):
             if self.field:
                 default = ListProxy(cfg, self, default)
             else:
